@@ -123,7 +123,13 @@ func pkgB(name string, allowed bool) string {
 	r := !allowed
 	return `package ` + name + `
 
-import "ex.com/m/a"
+import (
+	"unsafe"
+
+	"ex.com/m/a"
+)
+
+var _ = unsafe.Sizeof(0)
 
 // TB is ` + name + `'s own immutable type.
 // @immutable
